@@ -51,6 +51,10 @@ static char *gtext;
 static int gkind; /* 0 none 1 text 2 jsgf */
 static char mode[32] = "stream";
 static long chunk = 4096;
+static long chunkseq[64][2]; /* (size, count) runs; after the last run `chunk` is used */
+static int nchunkseq;
+static struct { char path[512]; long skip, start, n; } utts[8];
+static int nutts;
 static int partials[256], npartial, early, dumpsen, tmatskip;
 static char addw[16][2][256];
 static int naddw;
@@ -227,6 +231,30 @@ static void print_level(alignment_t *al, char tag, alignment_iter_t *it, alignme
             printf("S %ld %d %s %d %d %d %d\n", idx, (int)e->id.senid, nm ? nm : "(null)", start, dur, score, e->parent);
     }
     (void)al;
+}
+
+/* the emitting states every phone must have in its context, looked up directly in the model definition
+ * (bin_mdef_phone_id_nearest + pid2ssid + sseq), NOT through the dict2pid tables the library used:
+ * left context = previous phone of the utterance (SIL at the start), right context = next phone (SIL at the end),
+ * word position from the phone's place in its word */
+static void print_expected_states(alignment_t *al)
+{
+    bin_mdef_t *m = d->acmod->mdef;
+    int np = alignment_n_phones(al), i, j, sil = bin_mdef_silphone(m), n = bin_mdef_n_emit_state(m);
+    for (i = 0; i < np; i++) {
+        alignment_entry_t *e = al->sseq.seq + i;
+        int ci = e->id.pid.cipid;
+        int lc = i > 0 ? al->sseq.seq[i - 1].id.pid.cipid : sil;
+        int rc = i + 1 < np ? al->sseq.seq[i + 1].id.pid.cipid : sil;
+        int first = (i == 0) || al->sseq.seq[i - 1].parent != e->parent;
+        int last = (i + 1 == np) || al->sseq.seq[i + 1].parent != e->parent;
+        word_posn_t pos = first && last ? WORD_POSN_SINGLE : first ? WORD_POSN_BEGIN : last ? WORD_POSN_END : WORD_POSN_INTERNAL;
+        int pid = bin_mdef_phone_id_nearest(m, ci, lc, rc, pos);
+        int ssid = pid >= 0 ? bin_mdef_pid2ssid(m, pid) : -1;
+        printf("X %d %d %d %d %d %d", i, ci, lc, rc, (int)pos, ssid);
+        for (j = 0; j < n; j++) printf(" %d", ssid >= 0 ? (int)bin_mdef_sseq2sen(m, ssid, j) : -1);
+        printf("\n");
+    }
 }
 
 static void print_children(alignment_t *al)
@@ -458,6 +486,7 @@ static void request(const char *tag)
     }
     print_level(al, 'W', alignment_words(al), &al->word);
     print_level(al, 'P', alignment_phones(al), &al->sseq);
+    print_expected_states(al);
     print_level(al, 'S', alignment_states(al), &al->state);
     print_children(al);
     sas = (state_align_search_t *)d->align;
@@ -477,8 +506,7 @@ static void request(const char *tag)
 
 static void run_case(void)
 {
-    size_t pos = 0;
-    int k = 0, i, rv;
+    int i, rv;
     if (ensure_decoder() < 0) { printf("ENDCASE %s\n", caseid); out_flush(); return; }
     for (i = 0; i < naddw; i++)
         if (dict_wordid(d->dict, addw[i][0]) < 0 && decoder_add_word(d, addw[i][0], addw[i][1], 1) < 0)
@@ -491,27 +519,48 @@ static void run_case(void)
     out_flush();
     if (rv < 0) { if (tmatskip) tmat_skip(0); printf("ENDCASE %s\n", caseid); out_flush(); return; }
     acmod_set_grow(d->acmod, strcmp(mode, "nogrow") != 0);
-    if (decoder_start_utt(d) < 0) { if (tmatskip) tmat_skip(0); printf("error start-utt\nENDCASE %s\n", caseid); out_flush(); return; }
-    if (early) request("early");
-    if (!strcmp(mode, "full")) {
-        decoder_process_int16(d, audio, naudio, 0, 1);
-    } else {
-        int nosearch = !strcmp(mode, "nosearch");
-        while (pos < naudio) {
-            size_t n = naudio - pos < (size_t)chunk ? naudio - pos : (size_t)chunk;
-            decoder_process_int16(d, audio + pos, n, nosearch, 0);
-            pos += n;
-            for (i = 0; i < npartial; i++)
-                if (partials[i] == k) {
-                    char tag[32];
-                    snprintf(tag, sizeof(tag), "p%d", k);
-                    request(tag);
+    {
+        int u;
+        for (u = 0; u <= nutts; u++) {
+            char tag[32];
+            size_t upos = 0;
+            int uk = 0, run = 0;
+            long left = nchunkseq ? chunkseq[0][1] : 0;
+            if (u > 0) {
+                /* a further utterance on the same decoder WITHOUT setting the text/grammar again */
+                if (load_audio(utts[u - 1].path, utts[u - 1].skip, utts[u - 1].start, utts[u - 1].n) < 0) {
+                    printf("error audio %s\n", utts[u - 1].path);
+                    break;
                 }
-            k++;
+            }
+            if (decoder_start_utt(d) < 0) { printf("error start-utt\n"); break; }
+            if (early && u == 0) request("early");
+            if (!strcmp(mode, "full")) {
+                decoder_process_int16(d, audio, naudio, 0, 1);
+            } else {
+                int nosearch = !strcmp(mode, "nosearch");
+                while (upos < naudio) {
+                    size_t want = (size_t)chunk, n;
+                    while (run < nchunkseq && left <= 0) { run++; left = run < nchunkseq ? chunkseq[run][1] : 0; }
+                    if (run < nchunkseq) { want = (size_t)chunkseq[run][0]; left--; }
+                    n = naudio - upos < want ? naudio - upos : want;
+                    decoder_process_int16(d, audio + upos, n, nosearch, 0);
+                    upos += n;
+                    if (u == 0)
+                        for (i = 0; i < npartial; i++)
+                            if (partials[i] == uk) {
+                                snprintf(tag, sizeof(tag), "p%d", uk);
+                                request(tag);
+                            }
+                    uk++;
+                }
+            }
+            decoder_end_utt(d);
+            if (u == 0) snprintf(tag, sizeof(tag), "final");
+            else snprintf(tag, sizeof(tag), "u%dfinal", u);
+            request(tag);
         }
     }
-    decoder_end_utt(d);
-    request("final");
     if (tmatskip) tmat_skip(0);
     printf("ENDCASE %s\n", caseid);
     out_flush();
@@ -533,7 +582,7 @@ int main(int argc, char **argv)
         if (!strcmp(w[0], "case") && n >= 2) {
             snprintf(caseid, sizeof(caseid), "%s", w[1]);
             ncfg = 0; npartial = 0; early = 0; dumpsen = 0; gkind = 0; tmatskip = 0; naddw = 0;
-            strcpy(mode, "stream"); chunk = 4096;
+            strcpy(mode, "stream"); chunk = 4096; nchunkseq = 0; nutts = 0;
         } else if (!strcmp(w[0], "cfg") && n == 3 && ncfg < MAXCFG) {
             snprintf(cfgk[ncfg], 64, "%s", w[1]);
             snprintf(cfgv[ncfg], 128, "%s", w[2]);
@@ -556,6 +605,19 @@ int main(int argc, char **argv)
             free(a); free(b);
         } else if (!strcmp(w[0], "mode") && n == 2) {
             snprintf(mode, sizeof(mode), "%s", w[1]);
+        } else if (!strcmp(w[0], "chunkseq")) {
+            /* runs "SIZExCOUNT": COUNT chunks of SIZE samples, in order; then `chunk` */
+            for (i = 1; i < n && nchunkseq < 64; i++) {
+                char *x = strchr(w[i], 'x');
+                chunkseq[nchunkseq][0] = atol(w[i]);
+                chunkseq[nchunkseq][1] = x ? atol(x + 1) : 1;
+                if (chunkseq[nchunkseq][0] < 1) chunkseq[nchunkseq][0] = 1;
+                nchunkseq++;
+            }
+        } else if (!strcmp(w[0], "utt") && n == 5 && nutts < 8) {
+            snprintf(utts[nutts].path, sizeof(utts[nutts].path), "%s", w[1]);
+            utts[nutts].skip = atol(w[2]); utts[nutts].start = atol(w[3]); utts[nutts].n = atol(w[4]);
+            nutts++;
         } else if (!strcmp(w[0], "chunk") && n == 2) {
             chunk = atol(w[1]);
             if (chunk < 1) chunk = 1;
